@@ -31,6 +31,9 @@ class Deployment:
         self.redis: Any = None
         self.server: Any = None
         seams.install()
+        from optuna.storages.journal import _storage as _js
+
+        _js.SNAPSHOT_INTERVAL = int(self.cfg.get("snapshot_interval", 100))
         if self.inner_kind.startswith("jf"):
             self.fs = fsmod.SimFS(sim, read_block=self.cfg.get("read_block", 8192))
             if self.cfg.get("chunked_write"):
@@ -103,6 +106,11 @@ class Deployment:
         self.storages[proc.name] = st
         return st
 
+    def new_client_in_task(self, proc: Any) -> Any:
+        """Drop the storage object of `proc` (if any) and open a new one (re-open)."""
+        self.storages.pop(proc.name, None)
+        return self.client(proc)
+
     def observer(self) -> Any:
         """A fresh storage object on the same durable medium for the checker's own reads
         (never shared with a simulated client).  Used from the harness thread."""
@@ -114,6 +122,10 @@ class Deployment:
         return self._new_inner(None)
 
     def close(self) -> None:
+        try:
+            self.sim.teardown()
+        except Exception:
+            pass
         for c in self._closers:
             try:
                 c()
